@@ -1,4 +1,9 @@
 #include "ber.h"
+#include "walker.h"
+extern "C" {
+#include <OCTET_STRING.h>
+#include <BIT_STRING.h>
+}
 
 static bool parse_hdr(const uint8_t *p, size_t n, Tlv &t) {
     if(n < 2) return false;
@@ -97,7 +102,7 @@ static bool is_univ_string(const Tlv &t) {
     return t.tagno == 3 || t.tagno == 4 || t.tagno == 12 || (t.tagno >= 18 && t.tagno <= 30);
 }
 
-struct VarCfg { unsigned p_indef, p_long, p_seg; };   // per 16
+struct VarCfg { unsigned p_indef, p_long, p_seg; const BerHints *hints; };   // per 16
 
 static void emit_tlv(Bytes &o, const Tlv &t, bool constructed, const Bytes &content, Rng &rng, const VarCfg &cfg,
                      VariantStats &vs, bool allow_indef) {
@@ -156,6 +161,13 @@ static bool rewrite(const uint8_t *p, size_t n, Bytes &o, Rng &rng, const VarCfg
             segment(inner, c, t.len, t.tagno == 3, 0, rng, cfg, vs);
             emit_tlv(o, t, true, inner, rng, cfg, vs, true);
             vs.segmented++;
+        } else if(t.cls != 0 && cfg.hints && rng.below(16) < cfg.p_seg && t.len > 0
+                  && (cfg.hints->strings.count(Bytes(c, c + t.len)) || cfg.hints->bitstrings.count(Bytes(c, c + t.len)))) {
+            bool bits = !cfg.hints->strings.count(Bytes(c, c + t.len));
+            Bytes inner;
+            segment(inner, c, t.len, bits, 0, rng, cfg, vs);
+            emit_tlv(o, t, true, inner, rng, cfg, vs, true);
+            vs.segmented++;
         } else {
             Bytes content(c, c + t.len);
             emit_tlv(o, t, false, content, rng, cfg, vs, false);
@@ -165,13 +177,27 @@ static bool rewrite(const uint8_t *p, size_t n, Bytes &o, Rng &rng, const VarCfg
     return true;
 }
 
-bool ber_variant(const Bytes &der, Rng &rng, Bytes &out, VariantStats &vs) {
-    VarCfg cfg;
+bool ber_variant(const Bytes &der, Rng &rng, Bytes &out, VariantStats &vs, const BerHints *hints) {
+    VarCfg cfg; cfg.hints = hints;
     cfg.p_indef = (unsigned)rng.below(13);      // 0..12 of 16
     cfg.p_long = (unsigned)rng.below(9);
     cfg.p_seg = (unsigned)rng.below(11);
     out.clear();
     return rewrite(der.data(), der.size(), out, rng, cfg, vs, 0);
+}
+
+void ber_collect_hints(const asn_TYPE_descriptor_t *td, void *st, BerHints &h) {
+    walk(td, st, [&](const Node &n) {
+        Kind k = kind_of(n.td);
+        if(k == K_OCTET_STRING || k == K_STRING) {
+            const OCTET_STRING_t *s = (const OCTET_STRING_t *)n.ptr;
+            if(s->buf && s->size) h.strings.insert(Bytes(s->buf, s->buf + s->size));
+        } else if(k == K_BIT_STRING) {
+            const BIT_STRING_t *s = (const BIT_STRING_t *)n.ptr;
+            if(s->buf && s->size) { Bytes b; b.push_back((uint8_t)(s->bits_unused & 7)); b.insert(b.end(), s->buf, s->buf + s->size); h.bitstrings.insert(b); }
+        }
+        return true;
+    }, 20000);
 }
 
 // ---------------------------------------------------------------- XER
